@@ -58,7 +58,7 @@ func appendBoolNotEmptyAsString(fi *finfo, buf []byte, rv reflect.Value, addr ui
 
 func iappendBool(fi *finfo, buf []byte, rv reflect.Value, addr uintptr, safe bool) ([]byte, any, appendStatus) {
 	buf = append(buf, fi.jkey...)
-	if rv.FieldByIndex(fi.index).Interface().(bool) {
+	if rv.FieldByIndex(fi.index).Bool() {
 		buf = append(buf, "true"...)
 	} else {
 		buf = append(buf, "false"...)
@@ -68,7 +68,7 @@ func iappendBool(fi *finfo, buf []byte, rv reflect.Value, addr uintptr, safe boo
 
 func iappendBoolAsString(fi *finfo, buf []byte, rv reflect.Value, addr uintptr, safe bool) ([]byte, any, appendStatus) {
 	buf = append(buf, fi.jkey...)
-	if rv.FieldByIndex(fi.index).Interface().(bool) {
+	if rv.FieldByIndex(fi.index).Bool() {
 		buf = append(buf, `"true"`...)
 	} else {
 		buf = append(buf, `"false"`...)
@@ -77,7 +77,7 @@ func iappendBoolAsString(fi *finfo, buf []byte, rv reflect.Value, addr uintptr, 
 }
 
 func iappendBoolNotEmpty(fi *finfo, buf []byte, rv reflect.Value, addr uintptr, safe bool) ([]byte, any, appendStatus) {
-	if rv.FieldByIndex(fi.index).Interface().(bool) {
+	if rv.FieldByIndex(fi.index).Bool() {
 		buf = append(buf, fi.jkey...)
 		buf = append(buf, "true"...)
 		return buf, nil, aWrote
@@ -86,7 +86,7 @@ func iappendBoolNotEmpty(fi *finfo, buf []byte, rv reflect.Value, addr uintptr, 
 }
 
 func iappendBoolNotEmptyAsString(fi *finfo, buf []byte, rv reflect.Value, addr uintptr, safe bool) ([]byte, any, appendStatus) {
-	if rv.FieldByIndex(fi.index).Interface().(bool) {
+	if rv.FieldByIndex(fi.index).Bool() {
 		buf = append(buf, fi.jkey...)
 		buf = append(buf, `"true"`...)
 		return buf, nil, aWrote
